@@ -49,23 +49,22 @@ theorem str_plus : " + ".toList = [' ', '+', ' '] := by decide
 theorem str_minus : " - ".toList = [' ', '-', ' '] := by decide
 
 /-- what `realTextEnd` gives about the last character -/
+theorem realEndRev_head {l : Str} (h : realEndRev l = true) :
+    ∃ c r, l = c :: r ∧ (isDigitCh c = true ∨ c = 'f' ∨ c = 'N') := by
+  unfold realEndRev at h
+  split at h
+  · exact ⟨_, _, rfl, Or.inr (Or.inl rfl)⟩
+  · exact ⟨_, _, rfl, Or.inr (Or.inr rfl)⟩
+  · exact ⟨_, _, rfl, Or.inl h⟩
+  · cases h
+
 theorem realTextEnd_last {s : Str} (h : realTextEnd s = true) :
     ∃ c, s.getLast? = some c ∧ (isDigitCh c = true ∨ c = 'f' ∨ c = 'N') := by
-  unfold realTextEnd at h
-  rw [List.getLast?_eq_head?_reverse]
-  cases hr : s.reverse with
-  | nil => rw [hr] at h; simp at h
-  | cons c r =>
-    rw [hr] at h
-    refine ⟨c, rfl, ?_⟩
-    split at h
-    · rename_i heq; simp at heq; exact Or.inr (Or.inl heq.1)
-    · rename_i heq; simp at heq; exact Or.inr (Or.inr heq.1)
-    · rename_i heq; simp at heq; rw [heq.1]; exact Or.inl h
-    · rename_i heq; simp at heq
+  obtain ⟨c, r, hr, hc⟩ := realEndRev_head h
+  exact ⟨c, by rw [List.getLast?_eq_head?_reverse, hr]; rfl, hc⟩
 
 theorem realTextEnd_ne_nil {s : Str} (h : realTextEnd s = true) : s ≠ [] := by
-  rintro rfl; simp [realTextEnd] at h
+  rintro rfl; simp [realTextEnd, realEndRev] at h
 
 theorem realTextEnd_last_ne {s : Str} (h : realTextEnd s = true) :
     s.getLast? ≠ some 'i' ∧ s.getLast? ≠ some '-' := by
